@@ -105,7 +105,7 @@ def run(ctx):
             for tr in sorted({1, 2, n}):
                 if n == 6 and vt == 'regular' and tr != n:
                     continue
-                ctx.tlc('Vine.mc N=%d %s t=%d' % (n, vt, tr), 'Vine', MC_CFG % (n, vt, tr, ''), timeout=1500)
+                ctx.tlc('Vine.mc N=%d %s t=%d' % (n, vt, tr), 'Vine', MC_CFG % (n, vt, tr, ''), timeout=4000)
     # (b) drivers
     jobs = []
     for vt in ('center', 'direct', 'regular'):
